@@ -32,20 +32,30 @@ Definition enc_state (st : state) : list Z :=
   ++ [zlen (io_clocks st)] ++ concat (map (fun e => enc_path (fst (fst e)) ++ [snd (fst e); snd e]) (io_clocks st))
   ++ [zlen (pins st)].
 
-(* One history: per request [1; value...] or [-1; error]; after every request the sizes of the
-   allocation; at the end the whole state.  [-3] = fuel of the model exhausted (never happens:
-   Proofs/ResP.v resolve_terminates); the implementation side reports [-2] if a request did not return. *)
+(* digest of an encoded state (the harness computes the same polynomial over the real manager's state) *)
+Definition digest (l : list Z) : Z :=
+  fold_left (fun h x => (h * 1000003 + x + 7) mod 2305843009213693951) l 0.
+
+(* One history: per request [1; value...] or [-1; error]; after every request the sizes and the digest of
+   the whole allocation state; at the end the whole state.  [-3] = fuel of the model exhausted (never happens:
+   Proofs/ResP.v resolve_terminates); the implementation side reports [-2] if a request did not return.
+   Errors: 1 ResourceError(pin conflict) 6 ResourceError(does not exist) 7 ResourceError(already requested)
+   2 TypeError 3 ValueError 4 NameError. *)
 Fixpoint run_hist (t : table) (cm : connmap) (st : state) (h : list req) : list Z :=
   match h with
   | [] => 9 :: enc_state st
   | q :: r =>
     match request t cm st q with
     | (_, Error EHang) => [-3]
-    | (st', Error e) => [-1; enc_err e; zlen (phys_reqd st'); zlen (io_clocks st')] ++ run_hist t cm st' r
-    | (st', Ok v) => 1 :: enc_value v ++ [zlen (phys_reqd st'); zlen (io_clocks st')] ++ run_hist t cm st' r
+    | (st', Error e) => [-1; enc_err e; zlen (phys_reqd st'); zlen (io_clocks st'); digest (enc_state st')]
+                        ++ run_hist t cm st' r
+    | (st', Ok v) => 1 :: enc_value v ++ [zlen (phys_reqd st'); zlen (io_clocks st'); digest (enc_state st')]
+                     ++ run_hist t cm st' r
     end
   end.
-Definition k_hist (t : table) (cm : connmap) (h : list req) : list Z := run_hist t cm init_state h.
+(* ResourceManager(resources, connectors): NameError for two resources with the same name and number *)
+Definition k_hist (t : table) (cm : connmap) (h : list req) : list Z :=
+  if table_dup t then [-1; 4; 0] else run_hist t cm init_state h.
 
 (* Pins.map_names alone: [1; pins...] | [-1; 4] NameError (dangling or cyclic) | [-3] fuel exhausted (never) *)
 Definition k_map (cm : connmap) (ns : list pname) : list Z :=
@@ -55,21 +65,20 @@ Definition k_map (cm : connmap) (ns : list pname) : list Z :=
   | LLoop => [-3]
   end.
 
-(* constraint view of a granted history: (port path, suffix, bit or -1, pin) per entry, then clocks *)
+(* Platform.build(do_build=False): per design request 0 (granted) or the error code; then [-1; error] if
+   create_missing_domain's request of default_clk / default_rst is refused, else the constraint file in file
+   order: entries (port path, suffix, bit or -1, pin, attrs), then the port clock constraints *)
 Definition enc_constr (c : constr) : list Z :=
   enc_path (fst (c_port c)) ++ [snd (c_port c); match c_bit c with Some k => k | None => -1 end; c_pin c]
   ++ enc_alist (c_attrs c).
-(* which I/O ports of a granted port the design uses: io / p always; n depending on the vendor's buffers
-   (mode 0: never — ECP5; 1: always — Gowin; 2: only for outputs — iCE40) *)
-Definition used_ioports (mode : Z) (p : port) : list ioport :=
-  filter (fun io => negb (snd (io_name io) =? 2) || (mode =? 1) || ((mode =? 2) && dirs_eqb (pt_dir p) Do))
-         (port_ioports p).
-Definition k_constraints (t : table) (cm : connmap) (h : list req) (mode : Z) (with_attrs with_clocks : bool) : list Z :=
-  let (st, outs) := run t cm h in
-  let used := concat (map (fun qv => concat (map (fun l => used_ioports mode (lv_port l)) (leaves (snd qv))))
-                          (granted outs)) in
-  let cs := port_constraints used in
-  let cks := if with_clocks then clock_constraints st else [] in
-  [zlen cs] ++ concat (map (fun c => enc_constr (if with_attrs then c else mkC (c_port c) (c_bit c) (c_pin c) [])) cs)
-  ++ [zlen cks]
-  ++ concat (map (fun e => enc_path (fst (fst e)) ++ [snd (fst e); snd e]) cks).
+Definition oz (k : Z) : option Z := if k <? 0 then None else Some k.
+Definition k_build (v : vendor) (t : table) (cm : connmap) (h : list req) (dclk drst : Z) (unused : list path) : list Z :=
+  if table_dup t then [-1; 4; 0] else
+  let (outs, r) := build v t cm h (oz dclk) (oz drst) unused in
+  zlen outs :: map (fun o => match snd o with Ok _ => 0 | Error e => enc_err e end) outs
+  ++ match r with
+     | inl e => [-1; enc_err e]
+     | inr pl => [1; zlen (pl_constraints pl)] ++ concat (map enc_constr (pl_constraints pl))
+                 ++ [zlen (pl_clocks pl)]
+                 ++ concat (map (fun e => enc_path (fst (fst e)) ++ [snd (fst e); snd e]) (pl_clocks pl))
+     end.
